@@ -22,6 +22,8 @@ type chainCfg struct {
 	// OnResult sees every job result (differential oracles)
 	OnResult func(c *ev.Ctx, hist []int, job Job, res JobResult)
 	NoDedup  bool
+	// KeyExtra is appended to the state key (history-dependent exploration budgets, e.g. deviations used)
+	KeyExtra func(hist []int) string
 	// PanicSig: when set, a panic of the real application during block execution is a violation with this
 	// signature (a block sequence every node would crash on); otherwise it is an error of the harness run
 	PanicSig string
@@ -143,6 +145,9 @@ func chainExplore(c *ev.Ctx, cfg *chainCfg) chainStats {
 					job := mkJob(it.hist)
 					res := p.Exec(job)
 					k, ok := handle(it.hist, job, res)
+					if ok && cfg.KeyExtra != nil {
+						k += "|" + cfg.KeyExtra(it.hist)
+					}
 					mu.Lock()
 					trans++
 					for _, b := range job.Blocks[len(job.Blocks)-1:] {
@@ -151,7 +156,7 @@ func chainExplore(c *ev.Ctx, cfg *chainCfg) chainStats {
 						}
 						for ti, t := range b.Txs {
 							if ti < len(res.Blocks[len(res.Blocks)-1].Txs) {
-								c.Outcomes[fmt.Sprintf("%s:%s:code%d", cfg.Name, t.Kind, res.Blocks[len(res.Blocks)-1].Txs[ti].Code)]++
+								c.Outcome(fmt.Sprintf("%s:%s:code%d", cfg.Name, t.Kind, res.Blocks[len(res.Blocks)-1].Txs[ti].Code))
 							}
 						}
 					}
